@@ -20,9 +20,12 @@ def get_circle_point_list(center, normal, radius, n=10):
         )
     import math, copy
 
-    if normal.angle(x_unit_vector()) < SMALL_ANGLE:
+    # the base vector must not be (anti)parallel to the normal
+    angle_x = normal.angle(x_unit_vector())
+    if angle_x < SMALL_ANGLE or angle_x > math.pi - SMALL_ANGLE:
         base_vector = y_unit_vector()
-        if normal.angle(y_unit_vector()) < SMALL_ANGLE:
+        angle_y = normal.angle(y_unit_vector())
+        if angle_y < SMALL_ANGLE or angle_y > math.pi - SMALL_ANGLE:
             raise ValueError("Bug detected! please contact the author")
     else:
         base_vector = x_unit_vector()
